@@ -127,6 +127,13 @@ def pushSelf (q : List QEntry) (x1 : Nat) (cc : Nat) : List QEntry :=
   | [] => [(x1, [], [cc])]
   | (x', p', m') :: q' => if x' > x1 then (x1, [], [cc]) :: q else (x', p', m' ++ [cc]) :: q'
 
+/-- `matched` once the last real step matched: `True`, or the result of the attribute node
+    test when the path ends in an attribute step -/
+def lastResult (steps : List Step) (e : Event) (ns : NsMap) : Val :=
+  match steps.getLast? with
+  | some last => if last.axis == .attribute then last.test.apply e ns else .bool true
+  | none => .bool true
+
 /-- the `while pos_queue` loop -/
 def gLoop (steps : List Step) (rlen : Nat) (e : Event) (ns : NsMap) (vs : Vars) :
     Nat → List QEntry → GAcc → GAcc
@@ -142,10 +149,7 @@ def gLoop (steps : List Step) (rlen : Nat) (e : Event) (ns : NsMap) (vs : Vars) 
         let (matched, store) := gPreds e ns vs (pcou ++ mcou) st.preds 0 [] acc.store
         if !matched then gLoop steps rlen e ns vs fuel q { acc with nextPos := nextPos, store := store }
         else if x + 1 == rlen then
-          let m : Val :=
-            match steps.getLast? with
-            | some last => if last.axis == .attribute then last.test.apply e ns else .bool true
-            | none => .bool true
+          let m : Val := lastResult steps e ns
           let retval := if m.truthy then m else acc.retval
           gLoop steps rlen e ns vs fuel q ⟨nextPos, store, retval⟩
         else
